@@ -408,13 +408,25 @@ def skip_guards_first(ctx: Ctx, rule: str) -> None:
         body = [s_ for s_ in loop.body if not isinstance(s_, ast.Assign)]
         first_two = body[:2]
         ren = {sp: "state_params"}
+        # a parameter read named before the guards (skip_types = state_params.objects("skip_types")) is that read
+        env = {}
+        for s_ in loop.body:
+            if isinstance(s_, ast.If):
+                break
+            if isinstance(s_, ast.Assign) and len(s_.targets) == 1 and isinstance(s_.targets[0], ast.Name) and isinstance(s_.value, ast.Call) \
+                    and isinstance(s_.value.func, ast.Attribute) and ast.unparse(s_.value.func.value) == sp and s_.value.func.attr in ("objects", "get", "get_boolean"):
+                env[s_.targets[0].id] = s_.value
         want = [norm.formula(ast.parse("params_obj_type in state_params.objects('skip_types')", mode="eval").body),
                 norm.formula(ast.parse("params_obj_type == 'nets/vms/images' and state_params.get_boolean('image_readonly', False)", mode="eval").body)]
         ok = len(first_two) == 2 and all(isinstance(i, ast.If) and not i.orelse and isinstance(i.body[-1], ast.Continue) and not any(isinstance(x, (ast.Raise, ast.Return, ast.Break)) for x in ast.walk(i)) for i in first_two)
         if ok:
-            ok = all(norm.equivalent(norm.formula(i.test, rename=ren), w) for i, w in zip(first_two, want))
+            ok = all(norm.equivalent(norm.formula(i.test, env, ren), w) for i, w in zip(first_two, want))
         lead = [ast.unparse(s_.targets[0]) for s_ in loop.body[:2] if isinstance(s_, ast.Assign)]
         ok = ok and sorted(lead) == ["params_obj_name", "params_obj_type"]
+        # nothing but parameter reads happens before the guards
+        first_if = next((k_ for k_, s_ in enumerate(loop.body) if isinstance(s_, ast.If)), 0)
+        ok = ok and all(isinstance(s_, ast.Assign) and (ast.unparse(s_.targets[0]) in ("params_obj_name", "params_obj_type") or (isinstance(s_.targets[0], ast.Name) and s_.targets[0].id in env)) for s_ in loop.body[:first_if]
+                        if not (isinstance(s_, ast.Expr) and isinstance(s_.value, ast.Constant)))
         ctx.record(rule, "GUARD", fref, f"{op}_states: per object, first `type in skip_types -> next object`, then `read-only image -> next object`", ok, {},
                    "" if ok else f"{op}_states no longer leaves skipped object types / read-only images alone before anything else")
 
